@@ -343,6 +343,14 @@ def _mcp_check(tier, seed):
                     norm = lambda r: r.replace(' ', '').replace('&', 'And').lower()
                     if [norm(r) for r in rules_ex] != [norm(r) for r in rules_cli]:
                         bad.append(f'rules {rules_ex} vs {rules_cli}')
+                # the explanation sentence quotes the leg's cost: in full, or rounded to pence with midpoints away from zero
+                import re as _re2
+                for me in ex['matches']:
+                    mm = _re2.search(r'Cost basis:\s*£?\s*(-?[0-9][0-9,]*(?:\.[0-9]+)?)', me.get('explanation', ''))
+                    if mm:
+                        shown = Decimal(mm.group(1).replace(',', ''))
+                        if shown != Decimal(me['allowable_cost']) and shown != pence(me['allowable_cost']):
+                            bad.append(f'explanation of the {me["rule"]} leg says "Cost basis: {mm.group(1)}" for an allowable cost of {me["allowable_cost"]}')
                 for me, mc in zip(ex['matches'], disp['matches']):
                     if pence(me['allowable_cost']) != pence(mc['allowable_cost']) or Decimal(me['quantity']) != Decimal(mc['quantity']):
                         bad.append(f'leg {me["rule"]}: {me["quantity"]} @ cost {me["allowable_cost"]} vs {mc["quantity"]} @ {mc["allowable_cost"]}')
